@@ -9,3 +9,8 @@ type outcome = {
 
 let table : (string * (string -> Sx.t -> Sx.t -> outcome)) list ref = ref []
 let register name f = table := (name, f) :: !table
+
+(* optional projection of an observation (and of the model's output) to the observables a property's predicate reads;
+   the correspondence for that property is checked on the projection *)
+let projections : (string * (string -> Sx.t -> Sx.t)) list ref = ref []
+let register_projection name f = projections := (name, f) :: !projections
